@@ -25,6 +25,7 @@ type pipe struct {
 	inputs  []*fun.Iterator[int] // upstream iterators (closed by nobody but the construct)
 	w       int
 	stalled bool // a source stalls (C04 stop modes)
+	peeked  bool // the sources were advanced once before being wrapped
 }
 
 // stall lets the scheduler interleave here, one to three times.
@@ -42,12 +43,34 @@ func stall() {
 var (
 	pipeStall   = -1
 	pipeRelease chan struct{}
+	// pipePeek, when set, is a long-lived context with which every source is
+	// advanced once before the construct under test wraps it (C04): an
+	// iterator is bound to the context of its first advance, so afterwards
+	// only a Close of that source - which a downstream Close has to pass on -
+	// can release a goroutine that is parked reading from it.
+	pipePeek context.Context
 )
 
 // source builds an iterator over items from a tape-chosen kind of source.
 func source(p *pipe, items []int) *fun.Iterator[int] {
+	it := source0(p, items)
+	if pipePeek != nil {
+		for _, f := range p.feeders {
+			simrt.Spawn("feeder", f)
+		}
+		p.feeders = nil
+		_, _ = it.ReadOne(pipePeek)
+		p.peeked = true
+	}
+	return it
+}
+
+func source0(p *pipe, items []int) *fun.Iterator[int] {
 	if pipeStall >= 0 {
 		stallAt, release := pipeStall, pipeRelease
+		if pipePeek != nil && stallAt == 0 && len(items) > 0 {
+			stallAt = 1 // the peek needs one item
+		}
 		ch := make(chan int)
 		p.feeders = append(p.feeders, func() {
 			for k, v := range items {
@@ -56,6 +79,10 @@ func source(p *pipe, items []int) *fun.Iterator[int] {
 					return
 				}
 				hsend(ch, v)
+			}
+			if len(items) == 0 && pipePeek != nil {
+				hclose(ch) // nothing to peek at: the source simply ends
+				return
 			}
 			hrecv(release)
 		})
@@ -271,21 +298,46 @@ func buildPipe(ctx context.Context, kind, n, w, buf int) *pipe {
 			m.Store(v, v)
 		}
 		p.outs = []*fun.Iterator[int]{m.Keys()}
-	case pkHFWorkerPool:
-		ops := make([]fun.Worker, n)
-		for i := range ops {
-			i := i
-			ops[i] = func(context.Context) error { record(i); return nil }
+	case pkHFWorkerPool, pkHFOperationPool:
+		// the functions may be instant and the input slow (a generator that
+		// yields between items): the pool must still cover every item
+		instant := simrt.Choose(2) == 1
+		slow := simrt.Choose(2) == 1
+		rec := record
+		if instant {
+			rec = func(v int) { seen = append(seen, v) }
 		}
-		p.run = fun.HF.WorkerPool(fun.SliceIterator(ops))
-	case pkHFOperationPool:
-		ops := make([]fun.Operation, n)
-		for i := range ops {
-			i := i
-			ops[i] = func(context.Context) { record(i) }
+		next := 0
+		gate := func() bool {
+			if next >= n {
+				return false
+			}
+			if slow {
+				stall()
+			}
+			next++
+			return true
 		}
-		pool := fun.HF.OperationPool(fun.SliceIterator(ops))
-		p.run = func(ctx context.Context) error { pool(ctx); return nil }
+		if kind == pkHFWorkerPool {
+			src := fun.Generator(func(context.Context) (fun.Worker, error) {
+				if !gate() {
+					return nil, io.EOF
+				}
+				i := next - 1
+				return func(context.Context) error { rec(i); return nil }, nil
+			})
+			p.run = fun.HF.WorkerPool(src)
+		} else {
+			src := fun.Generator(func(context.Context) (fun.Operation, error) {
+				if !gate() {
+					return nil, io.EOF
+				}
+				i := next - 1
+				return func(context.Context) { rec(i) }, nil
+			})
+			pool := fun.HF.OperationPool(src)
+			p.run = func(ctx context.Context) error { pool(ctx); return nil }
+		}
 	case pkSplitMerge:
 		// fan out and back in: every item crosses two hand-off points
 		src := source(p, items)
